@@ -36,3 +36,5 @@ for ID in "$@"; do
   RES="$RES $ID:$RC"
 done
 echo "$NAME demo_with=$WITH demo_without=$WITHOUT checks:$RES" | tee "$DEST/result.txt"
+# evidence/ holds the records of clean-tree runs only: drop what the runs against a modified tree wrote
+git -C /verif checkout -- evidence/ 2>/dev/null
